@@ -557,6 +557,10 @@ def visibleStreams (fs : Fs) (r : Root) : List Nat :=
 def accepts (E : EmuCfg) (C : Codec) (fs : Fs) (cut : Path → Nat) (r : Root) : Bool :=
   (visibleStreams fs r).all fun t => streamAccepted E C fs cut r t
 
+/-- The stream files among the entries readdir returns, in that order. -/
+def streamEntries (order : List DirEnt) : List FName :=
+  order.filterMap fun e => match e with | .f n => some n | _ => none
+
 /-! ### Tie to the buffer model: the bytes of each `write` -/
 
 section Buffer
